@@ -285,6 +285,9 @@ func mergeCustomObjectFields(aTypes, bTypes map[string]*ast.Definition, a, b *as
 		}
 
 		rf := result.ForName(f.Name)
+		if rf != nil && !isSameFieldSignature(rf, f) {
+			return nil, fmt.Errorf("field signature collision: %s.%s is declared with different type or arguments", a.Name, f.Name)
+		}
 		isOverlappinggMap[i] = rf != nil
 		result = append(result, f)
 	}
@@ -319,6 +322,33 @@ func mergeCustomObjectFields(aTypes, bTypes map[string]*ast.Definition, a, b *as
 	}
 
 	return result, nil
+}
+
+// isSameFieldSignature reports whether two declarations of one field agree on type and arguments
+func isSameFieldSignature(a, b *ast.FieldDefinition) bool {
+	if a.Type.String() != b.Type.String() || len(a.Arguments) != len(b.Arguments) {
+		return false
+	}
+	// input fields carry a default value of their own
+	if (a.DefaultValue == nil) != (b.DefaultValue == nil) {
+		return false
+	}
+	if a.DefaultValue != nil && a.DefaultValue.String() != b.DefaultValue.String() {
+		return false
+	}
+	for _, aa := range a.Arguments {
+		ba := b.Arguments.ForName(aa.Name)
+		if ba == nil || aa.Type.String() != ba.Type.String() {
+			return false
+		}
+		if (aa.DefaultValue == nil) != (ba.DefaultValue == nil) {
+			return false
+		}
+		if aa.DefaultValue != nil && aa.DefaultValue.String() != ba.DefaultValue.String() {
+			return false
+		}
+	}
+	return true
 }
 
 func mergeableFields(t *ast.Definition) ast.FieldList {
